@@ -253,7 +253,13 @@ var ruleStyles = []styleSpec{
 	{name: "fill radial gradient, concentric, inner radius 0", fill: fillRadialDisc, width: 1},
 	{name: "fill radial gradient, start circle off-centre", fill: fillRadialFocal, width: 1},
 	{name: "fill red alpha 0.5 + stroke radial gradient w2", fill: fillRedHalf, stroke: strokeRadial, width: 2},
+	// styles of family N only: numbers that round up into a new integer digit when printed with 8 significant digits
+	{name: "stroke blue w99.9999996", stroke: strokeBlue, width: 99.9999996},
+	{name: "stroke blue w9.99999996 round join", stroke: strokeBlue, width: 9.99999996, join: joinRound},
+	{name: "stroke blue w0.999999996 dashes [2 1]", stroke: strokeBlue, width: 0.999999996, dash: 1},
 }
+
+const nRadialStyles = 4
 
 const nRuleStyles = 4 // the first entries of ruleStyles belong to family R, the rest to family Q
 
@@ -1401,7 +1407,7 @@ func allFamilies(tier string) []fw.Family {
 
 	// Q: radial gradients (SVG and PDF; the PostScript back-end's gradients are not compared)
 	qPaths := []int{0, 1, 4}
-	radQ := []int{len(ruleStyles) - nRuleStyles, len(qPaths), nV, nC}
+	radQ := []int{nRadialStyles, len(qPaths), nV, nC}
 	progQ := func(i int64) program {
 		g := oracle.Digits(i, radQ...)
 		return program{{path: qPaths[g[1]], style: len(styles) + nRuleStyles + g[0], view: g[2], cs: g[3]}}
@@ -1409,6 +1415,17 @@ func allFamilies(tier string) []fw.Family {
 	fs = append(fs, fw.Family{Name: "Q depth 1: radial gradients: {ring, disc, off-centre start circle, stroke} x 3 paths x view x coordinate system", N: oracle.Prod(radQ...),
 		Check: func(i int64, r *fw.R) { checkProgram(r, progQ(i), main3, true) },
 		Desc:  func(i int64) string { return progQ(i).String() }})
+
+	// N: numbers that round up into a new integer digit (the writers' own number formatters)
+	nViews := []int{0, 1}
+	radN := []int{len(ruleStyles) - nRuleStyles - nRadialStyles, len(nViews), nC}
+	progN := func(i int64) program {
+		g := oracle.Digits(i, radN...)
+		return program{{path: 2, style: len(styles) + nRuleStyles + nRadialStyles + g[0], view: nViews[g[1]], cs: g[2]}}
+	}
+	fs = append(fs, fw.Family{Name: "N depth 1: stroke widths 99.9999996, 9.99999996, 0.999999996 x zig-zag x 2 views x coordinate system", N: oracle.Prod(radN...),
+		Check: func(i int64, r *fw.R) { checkProgram(r, progN(i), main3, true) },
+		Desc:  func(i int64) string { return progN(i).String() }})
 
 	// G: gradients with more stops
 	fs = append(fs, fw.Family{Name: "G gradient stop lists x {SVG, PDF}", N: int64(len(gradientCases) * 2),
